@@ -244,6 +244,22 @@ theorem anchors_hold :
     Gen.C11Tables.insertColumns = ["run", "state", "request_pdu", "request_time", "request_timezone", "request_data",
       "response_pdu", "response_time", "response_timezone", "response_data", "exception", "log_mode"] := by decide
 
+/-- the write queue of the working tree is unbounded and its `put` is the only await of `insert_scan_result`: the
+    `finally` of `ECU._request` has no suspension point before the row is queued (what `Choice.prod` models) -/
+theorem queue_unbounded :
+    Gen.C11Tables.queueMaxsize = 0 ∧ Gen.C11Tables.insertAwaits = ["self._execute_queue.put"] := by decide
+
+/-- with the unbounded queue `put` never finds the queue full, in any reachable or unreachable state ... -/
+theorem put_never_suspends (s : Sys) : queueFull Gen.C11Tables.queueMaxsize s = false := by
+  simp [queueFull, queue_unbounded.1]
+
+/-- ... hence a cancellation requested during an exchange cannot overtake that exchange's row: after the exchange the
+    row is queued exactly as by an undisturbed producer step -/
+theorem cancel_cannot_overtake_row (s : Sys) (e : Exchange) (rest : List Exchange) (hs : s.stopped = false)
+    (ht : s.todo = e :: rest) :
+    cancelAtPut Gen.C11Tables.queueMaxsize s = { logStep { s with todo := [] } e with stopped := true } := by
+  simp [cancelAtPut, hs, ht, put_never_suspends]
+
 /-- every attribute of every request / response kind maps to JSON (so no row is dropped for its content) -/
 theorem attrs_json_total : ∀ e ∈ Gen.C11Tables.attrShapes, e.2.2.attrOk = true := by decide +kernel
 
@@ -267,5 +283,11 @@ example :
 /-- a cancellation that hits `disconnect()` itself while it waits for the queue is *not* covered by
     `no_loss_on_cancel`: the model of that path loses the queued rows (known finding `c11:rows-lost:at=cancel-join`) -/
 example : afterInterruptedDisconnect (runAll [ex1, ex2]) ≠ specRows .init 0 [ex1, ex2] := by decide
+
+/-- why `queue_unbounded` is an obligation: with a bounded queue (here capacity 1) a cancellation delivered while
+    `put` is suspended loses the row of a completely performed exchange -/
+example :
+    afterDisconnect (cancelAtPut 1 (exec (Sys.init [ex1, ex4]) [.prod])) ≠ specRows .init 0 [ex1, ex4] ∧
+    (cancelAtPut 1 (exec (Sys.init [ex1, ex4]) [.prod])).done = [ex1, ex4] := by decide
 
 end Gallia.C11
